@@ -172,7 +172,7 @@ QueryOK(ev) ==
 
 \* ---- one call -----------------------------------------------------------------------------------------------------------------------------
 Creation == {"new_var", "new_eq", "new_conj", "new_disj", "new_amo", "new_exo", "lra_new_var", "lra_def", "lra_rel",
-             "dl_new_var", "dl_dist", "dl_rel", "ov_new_var", "ov_new_eq"}
+             "dl_new_var", "dl_dist", "dl_rel", "ov_new_var", "ov_derived", "ov_new_eq"}
 Queries == {"dl_bounds", "dl_distance", "dl_equates"}
 
 DecsOK(ev) ==
@@ -215,7 +215,7 @@ Step(ev) ==
      /\ Chk({"C07", "C09", "C10"}, "CompleteIsModel",
             (ev.stable = 1 /\ Complete(ev.vals) /\ MD # {}) => ModelOfVals(ev.vals) \in M)
      /\ Chk({"C11", "C13", "C12", "C14"}, "RequestDoesNotConstrain",
-            (creation /\ ev.e # "ov_new_var") => ({{v \in m : v < n} : m \in M} = models))
+            (creation /\ ev.e \notin {"ov_new_var", "ov_derived"}) => ({{v \in m : v < n} : m \in M} = models))
      \* C13
      /\ Chk({"C13"}, "ReifiedMeaning",
             \A i \in DOMAIN ev.hooks : ev.hooks[i].k = "def" => DefOK(M, ev.hooks[i]))
